@@ -134,11 +134,40 @@ fn member_str(m: &syn::Member) -> String {
     }
 }
 
+/// Statements compiled out of the user-facing build: `#[cfg(test)]` and the
+/// verification hooks `#[cfg(wilfred_garden_verif)]`.
+fn cfg_disabled(attrs: &[syn::Attribute]) -> bool {
+    attrs.iter().any(|a| {
+        if !a.path().is_ident("cfg") {
+            return false;
+        }
+        let m = ts(&a.meta).replace(' ', "");
+        m == "cfg(test)" || m == "cfg(wilfred_garden_verif)"
+    })
+}
+
+fn stmt_disabled(s: &syn::Stmt) -> bool {
+    match s {
+        syn::Stmt::Local(l) => cfg_disabled(&l.attrs),
+        syn::Stmt::Macro(m) => cfg_disabled(&m.attrs),
+        syn::Stmt::Expr(e, _) => match e {
+            syn::Expr::Block(b) => cfg_disabled(&b.attrs),
+            syn::Expr::If(b) => cfg_disabled(&b.attrs),
+            syn::Expr::Call(b) => cfg_disabled(&b.attrs),
+            syn::Expr::MethodCall(b) => cfg_disabled(&b.attrs),
+            syn::Expr::Assign(b) => cfg_disabled(&b.attrs),
+            syn::Expr::Macro(b) => cfg_disabled(&b.attrs),
+            _ => false,
+        },
+        syn::Stmt::Item(_) => false,
+    }
+}
+
 fn block_json(b: &syn::Block) -> J {
     json!({
         "k": "block",
         "line": line(b.span()),
-        "stmts": b.stmts.iter().map(stmt_json).collect::<Vec<_>>(),
+        "stmts": b.stmts.iter().filter(|s| !stmt_disabled(s)).map(stmt_json).collect::<Vec<_>>(),
     })
 }
 
